@@ -4,10 +4,10 @@ package main
 // the verdict from rfcRef; the real receiver must agree, and so must the Coq model.
 
 import (
-	"strings"
 	"bytes"
 	"compress/flate"
 	"fmt"
+	"strings"
 
 	"verifharness/hx"
 )
@@ -138,7 +138,7 @@ func systematic13() []seqCase {
 	for _, c := range codes {
 		add("close-code", false, true, closeFrame(c, nil), tail)
 		if c%7 == 0 || !thorough {
-			add("close-code-reason", false, true, closeFrame(c, []byte("bye €")), tail)
+			add("close-code-reason", false, true, closeFrame(c, []byte("bye \xe2\x82\xac")), tail)
 		}
 	}
 	add("close-empty", false, false, dataFrame(8, true, nil), tail)
@@ -338,7 +338,7 @@ func part13(n int) {
 	start := rep.Cases
 	sys := systematic13()
 	idx := 0
-	for rep.Cases-start < n && !tooMany() {
+	for (idx < len(sys) || rep.Cases-start < n) && !tooMany() {
 		var sc seqCase
 		if idx < len(sys) {
 			sc = sys[idx]
@@ -374,7 +374,7 @@ func run13(sc seqCase) {
 	exp := rfcRef(sc.Frames, sc.EnComp)
 	rcfg := cfg{Client: rng.Intn(2) == 0, EnComp: sc.EnComp, WComp: sc.EnComp, FrameLimit: 32768, Level: 1, Decomp: pick(1, 1, 2), Hooks: true}
 	segs := []segmentation{{Kind: "whole"}, {Kind: "per-frame", Cuts: bounds}}
-	if sc.Few && !thorough {
+	if sc.Few && (!thorough || strings.HasPrefix(sc.Class, "close-code")) {
 		segs = append(segs, segmentation{"random-cuts", randomCuts(len(wire), 3)})
 	} else {
 		segs = append(segs, segmentations(len(wire), 2)[1:]...)
